@@ -63,6 +63,7 @@ pub fn tables_sx(ast: &full_moon::ast::Ast, d: &astdump::Dumper) -> Sx {
                 },
                 boolean(v.is_self),
                 num(v.references.len()),
+                boolean(v.is_global),
             ])
         })
         .collect();
